@@ -111,7 +111,85 @@ func concArg(v Value) (interface{}, bool) {
 	return nil, false
 }
 
+// callStringers: formatting an operand whose dynamic type is declared in the repository (not
+// generated code) with a String() or Error() method calls that method - the text is not modelled,
+// but what the method does (locks it takes, fields it reads) is part of the program's behaviour.
+// With a concrete format string only operands of %v %s %q (and their flagged forms) are formatted
+// that way; with an unknown format all are.
+func (e *Exec) callStringers(format string, known bool, va Slice) {
+	var verbs []byte
+	if known {
+		for i := 0; i < len(format); i++ {
+			if format[i] != '%' {
+				continue
+			}
+			i++
+			for i < len(format) && strings.IndexByte("+-# 0123456789.*[]", format[i]) >= 0 {
+				i++
+			}
+			if i < len(format) && format[i] != '%' {
+				verbs = append(verbs, format[i])
+			}
+		}
+	}
+	for i := 0; i < va.len; i++ {
+		if known && i < len(verbs) && strings.IndexByte("vsqxX", verbs[i]) < 0 {
+			continue
+		}
+		d, ok := va.arr.elems[va.off+i].v.(Iface)
+		if !ok || d.t == nil || d.t == opaqueErrType || d.t == reflectTypeType {
+			continue
+		}
+		named, _ := d.t.(*types.Named)
+		if p, isP := d.t.(*types.Pointer); isP {
+			named, _ = p.Elem().(*types.Named)
+		}
+		if named == nil || named.Obj().Pkg() == nil || !runsInitPath(named.Obj().Pkg().Path()) {
+			continue
+		}
+		if c, isCell := d.v.(*Cell); isCell && c == nil {
+			continue // nil pointer receivers: fmt prints <nil> (it recovers the panic)
+		}
+		for _, m := range []string{"Error", "String"} {
+			sel := e.prog.MethodSets.MethodSet(d.t).Lookup(nil, m)
+			if sel == nil {
+				continue
+			}
+			f := e.prog.MethodValue(sel)
+			if f == nil || f.Blocks == nil || f.Signature.Params().Len() != 0 || f.Signature.Results().Len() != 1 {
+				continue
+			}
+			if _, has := e.sh.handlerFor(f); has {
+				break
+			}
+			if e.inStringer > 2 {
+				break
+			}
+			e.inStringer++
+			e.call(f, []Value{d.v}, nil)
+			e.inStringer--
+			break
+		}
+	}
+}
+
 func sprintfModel(e *Exec, fn *ssa.Function, args []Value) Value {
+	switch fn.Name() {
+	case "Sprintf", "Errorf":
+		if f, ok := args[0].(Str); ok {
+			if va, ok := args[1].(Slice); ok {
+				e.callStringers(f.conc, f.isConc(), va)
+			}
+		}
+	default:
+		if va, ok := args[0].(Slice); ok {
+			e.callStringers("", false, va)
+		}
+	}
+	return sprintfModel0(e, fn, args)
+}
+
+func sprintfModel0(e *Exec, fn *ssa.Function, args []Value) Value {
 	var format string
 	var va Slice
 	switch fn.Name() {
@@ -347,6 +425,11 @@ func buildHandlers() map[string]handler {
 	h["fmt.Sprint"] = sprintfModel
 	h["fmt.Sprintln"] = sprintfModel
 	h["fmt.Errorf"] = func(e *Exec, fn *ssa.Function, a []Value) Value {
+		if f, ok := a[0].(Str); ok {
+			if va, ok := a[1].(Slice); ok {
+				e.callStringers(f.conc, f.isConc(), va)
+			}
+		}
 		return mkOpaqueErr("fmt.Errorf("+errName(a[0])+")", nil)
 	}
 	h["errors.New"] = func(e *Exec, fn *ssa.Function, a []Value) Value { return mkOpaqueErr(errName(a[0]), nil) }
